@@ -103,6 +103,24 @@ def run(chk):
                 else:
                     chk.cov["traces_validated_against_impl"] = chk.cov.get("traces_validated_against_impl", 0) + len(steps) + 1
                 break
+    # whole designs through the manager: the temperatures the returned object carries are those of the requested loads / flow / media
+    # (reference built from scratch through the low-level classes), also for RowWise + system flow and after the loads were replaced
+    from configs import cfg
+    d1 = cfg("ROWWISE", months=12, loads={"kind": "balanced", "scale": 40000.0, "seed": 3}, flow=("SYSTEM", 3.0))
+    d2 = cfg(months=12, loads={"kind": "cooling", "scale": 26000.0, "seed": 2})
+    d2["_changed_after_design"] = {"section": "loads", "values": {"synthetic": {"kind": "cooling", "scale": 65000.0, "seed": 2}}, "design_found_first": True}
+    for r in e2e_runs([d1, d2]):
+        if not r.get("ok") or "reference" not in r:
+            chk.broken.append({"name": "end-to-end run / reference failed", "detail": json.dumps({k: r.get(k) for k in ("exc", "msg", "reference_error")})})
+            continue
+        chk.cov["evaluations"] += 1
+        nontrivial += 1
+        a, b = r["hp_eft_head"], r["reference"]["hp_eft_head"]
+        bad = [i for i in range(min(len(a), len(b))) if not (abs(a[i] - b[i]) <= 1e-9 * max(1.0, abs(b[i])))]
+        if bad or len(a) != len(b):
+            chk.violation("design-temperatures", r["cfg"], {"step": (bad[0] + 1) if bad else None, "on_the_returned_design": a[bad[0]] if bad else len(a),
+                                                           "from_the_requested_inputs": b[bad[0]] if bad else len(b), "boreholes": r["nbh"], "H": r["H"]},
+                          "the temperatures of the returned design are the superposition of the REQUESTED loads with the requested flow and media")
     # metamorphic properties on the real GHE.simulate: zero load, scaling, ground temperature shift
     base = dict(cases[0], steps=30, want_K=False)
     meta = [dict(base), dict(base, scale=0.0), dict(base, scale=2.5), dict(base, ugt=base["ugt"] + 3.0), dict(base, scale=-1.0)]
